@@ -229,7 +229,7 @@ static void worker_main(int w, int W, const Job &job, int tier, uint64_t base, u
 		if (now_s() > deadline) break;
 		fprintf(f, "S %llu\n", (unsigned long long)i);
 		fflush(f);
-		Plan p = e->generate(run_seed(base, job, i), job.property, tier);
+		Plan p = e->generate_at(i, run_seed(base, job, i), job.property, tier);
 		RunResult rr = e->execute(p, false);
 		fprintf(f, "R %llu %llx %d %lld %d\n", (unsigned long long)i, (unsigned long long)rr.hash, rr.nontrivial ? 1 : 0, (long long)rr.sim_ms, rr.inconclusive ? 1 : 0);
 		for (auto &v : rr.violations) fprintf(f, "V %llu %s\n", (unsigned long long)i, ser_viol(v).c_str());
@@ -405,11 +405,25 @@ int cmd_run_one(const std::string &engine, const std::string &property, uint64_t
 	return rr.violations.empty() ? 0 : 1;
 }
 
+int cmd_run_at(const std::string &engine, const std::string &property, uint64_t index) {
+	Engine *e = engine_by_name(engine);
+	if (!e) return 2;
+	Job job{engine, property, 0, 0};
+	uint64_t base = 1;
+	if (const char *s = getenv("VERIF_SEED")) base = strtoull(s, nullptr, 0);
+	Plan p = e->generate_at(index, run_seed(base, job, index), property, 0);
+	printf("PLAN %s\n", p.brief(200).c_str());
+	RunResult rr = e->execute(p, true);
+	for (auto &l : rr.log) printf("%s\n", l.c_str());
+	for (auto &v : rr.violations) printf("VIOL %s/%s [%s] %s\n", v.property.c_str(), v.rule.c_str(), v.key.c_str(), v.detail.c_str());
+	return rr.violations.empty() ? 0 : 1;
+}
+
 struct Outcome { int exit_code = 0; int violations = 0, known = 0; std::vector<std::string> lines; };
 
 static void handle_violation(const Job &job, int tier, uint64_t base, uint64_t idx, const sim::Violation &v0, const std::vector<Known> &known, Outcome &oc, bool crash) {
 	Engine *e = engine_by_name(job.engine);
-	Plan p = e->generate(run_seed(base, job, idx), job.property, tier);
+	Plan p = e->generate_at(idx, run_seed(base, job, idx), job.property, tier);
 	sim::Violation v = v0;
 	std::string crash_text;
 	uint64_t hash1 = 0;
@@ -486,7 +500,6 @@ static void handle_violation(const Job &job, int tier, uint64_t base, uint64_t i
 	oc.exit_code = std::max(oc.exit_code, 1);
 }
 
-int cmd_alloc_check(const std::string &tier); // eng/alloc.cc
 
 // scan seeds until a violation whose rule/key contain the given substrings shows up; minimise it and write the replay
 int cmd_find(const std::string &engine, const std::string &property, const std::string &rule, const std::string &key, uint64_t nseeds) {
@@ -497,8 +510,9 @@ int cmd_find(const std::string &engine, const std::string &property, const std::
 	if (const char *s = getenv("VERIF_SEED")) base = strtoull(s, nullptr, 0);
 	std::vector<Known> none;
 	bool iso = getenv("FIND_ISOLATED") != nullptr;
-	for (uint64_t i = 0; i < nseeds; i++) {
-		Plan p = e->generate(run_seed(base, job, i), property, 0);
+	uint64_t from = getenv("FIND_FROM") ? strtoull(getenv("FIND_FROM"), nullptr, 0) : 0;
+	for (uint64_t i = from; i < from + nseeds; i++) {
+		Plan p = e->generate_at(i, run_seed(base, job, i), property, 0);
 		std::vector<sim::Violation> viols;
 		if (iso) {
 			Isolated r = run_isolated(p);
@@ -533,7 +547,6 @@ int cmd_check(const std::string &property, const std::string &tier_s) {
 	if (const char *s = getenv("VERIF_WORKERS")) W = std::max(1, atoi(s));
 	double scale = 1.0;
 	if (const char *s = getenv("VERIF_SCALE")) scale = atof(s);
-	if (spec->jobs.size() == 1 && spec->jobs[0].engine == "alloc") return cmd_alloc_check(tier ? "thorough" : "quick");
 	double t0 = now_s();
 	// regression: the replays of defects that were repaired in /repo must stay silent (a fixed entry suppresses nothing)
 	int regress_total = 0, regress_back = 0;
@@ -569,8 +582,9 @@ int cmd_check(const std::string &property, const std::string &tier_s) {
 	for (size_t ji = 0; ji < jobs.size(); ji++) {
 		const Job &job = jobs[ji];
 		uint64_t nruns = (uint64_t)((tier ? job.thorough_runs : job.quick_runs) * scale);
-		double share = (double)wall * (double)(tier ? job.thorough_runs : job.quick_runs);
-		double sum = 0; for (auto &j : jobs) sum += (double)(tier ? j.thorough_runs : j.quick_runs);
+		if (engine_by_name(job.engine)->planned_runs(tier)) nruns = engine_by_name(job.engine)->planned_runs(tier);
+		double share = (double)wall * (double)std::max<uint64_t>(1, tier ? job.thorough_runs : job.quick_runs);
+		double sum = 0; for (auto &j : jobs) sum += (double)std::max<uint64_t>(1, tier ? j.thorough_runs : j.quick_runs);
 		double deadline = now_s() + (sum > 0 ? share / sum : wall);
 		WorkerOut wo;
 		double jt0 = now_s();
@@ -580,7 +594,7 @@ int cmd_check(const std::string &property, const std::string &tier_s) {
 		rule_text = e->nontrivial_rule();
 		// samples: the first two plans of the job as executed
 		for (uint64_t i = 0; i < 2 && i < nruns; i++) {
-			Plan p = e->generate(run_seed(base, job, i), job.property, tier);
+			Plan p = e->generate_at(i * 7919 % (nruns ? nruns : 1), run_seed(base, job, i * 7919 % (nruns ? nruns : 1)), job.property, tier);
 			js::Val s = js::Val::obj();
 			s.set("engine", job.engine); s.set("seed_index", js::Val(i)); s.set("plan", p.brief(60));
 			samples.push(s);
@@ -594,6 +608,15 @@ int cmd_check(const std::string &property, const std::string &tier_s) {
 		jobs_j.push(jj);
 		// violations: one representative (smallest run index) per class
 		std::sort(wo.viols.begin(), wo.viols.end(), [](const WorkerOut::V &a, const WorkerOut::V &b) { return a.idx < b.idx; });
+		if (getenv("VERIF_LIST_CLASSES")) {
+			std::map<std::string, std::pair<uint64_t, uint64_t>> cls;
+			for (auto &v : wo.viols) { auto &c = cls[v.v.property + "/" + v.v.rule + " [" + v.v.key + "]"]; if (!c.first) c.second = v.idx; c.first++; }
+			for (auto &c : cls) printf("CLASS %6llu x first@%llu %s\n", (unsigned long long)c.second.first, (unsigned long long)c.second.second, c.first.c_str());
+			printf("CRASHED %zu runs:", wo.crashed_at.size());
+			for (size_t k = 0; k < wo.crashed_at.size() && k < 60; k++) printf(" %llu", (unsigned long long)wo.crashed_at[k]);
+			printf("\n");
+			continue;
+		}
 		std::vector<sim::Violation> seen;
 		int handled = 0;
 		for (auto &v : wo.viols) {
@@ -661,6 +684,7 @@ int cmd_check(const std::string &property, const std::string &tier_s) {
 	comp.set("reference_model", "KSI aggregator / extender / calendar / PDU MAC (ref/*.cc), independent of libksi");
 	cov.set("components", comp);
 	cov.set("exhaustive", false);
+	for (auto &j : jobs) engine_by_name(j.engine)->extra_evidence(cov, tier);
 	ev.set("coverage", cov);
 	js::Val as = js::Val::arr();
 	as.push("SimNet/SimCurl show the SDK only behaviours the Linux TCP stack / libcurl can produce (DESIGN.md 2.2, 2.3)");
